@@ -33,8 +33,10 @@ PROP = dict(
               "kinds of the two operands x real/complex; element-wise array checks rotate the three storage kinds with the array length; upsample/downsample len<=12 x factor<=12 x phase<min; "
               "linspace n=1..100 x 5 endpoint pairs; integer arange every (start,stop,step) in [-12,12]^3 and arange(stop) stop in [-12,12]; "
               "fractional arange 4 starts x 6 dyadic steps x count 0..20 (3 template instantiations); long fractional arange starts "
-              "{0,-5,2.5,1e6} x non-dyadic steps {0.1,0.01,0.6,1/3,-0.7,1e-3} x counts {100,1000,10000,100000} (every element against start+k*step "
-              "in long double within 8 eps*max(|start|,|k*step|,|result|), count, last element before stop); repelem len<=6 x n<=5; flip len<=12; "
+              "{0,-5,2.5,1e6} x non-dyadic steps {0.1,0.01,0.6,1/3,-0.7,1e-3} x counts {100,1000,10000,100000} and the decimal grid starts "
+              "{0,1,-5,2.5} x steps {0.1,0.01,0.3,0.7,1e-3,-0.1,-0.3} x every count 1..200 (exact element count wherever (stop-start)/step is "
+              "within 1e-9 of an integer, stop not included, every element against start+k*step in long double within "
+              "8 eps*max(|start|,|k*step|,|result|)); repelem len<=6 x n<=5; flip len<=12; "
               "zeropad len<=8 x pad<=8; delayseq (real and complex) N<=10 x delay in [-12,12]; big shapes (real and complex): upsample 70000 x3 "
               "-> 210000 and back, downsample 200000 /3, repelem 70000 x3, flip 200000, zeropad 70000->200000, delayseq N=200000 with delays "
               "{1,65536,70000,-65537,199999,-200000}; linspace n in {65537,70001,200000}; integer arange with 200000, 66667, 70000 and 200000 "
@@ -45,12 +47,13 @@ PROP = dict(
                  "7.9, 0.1} (137 values) for all 12 power overloads; array / reduction lengths every 1..1024, 4096, 10000, 70000, 200000; "
                  "upsample/downsample len<=32 x factor<=32; repelem len<=16 x n<=12; flip len<=64; zeropad 24x24; delayseq N<=32 x delay in "
                  "[-40,40]; linspace n=1..400; integer arange [-40,40]^3; dyadic fractional arange count<=64; long fractional arange also "
-                 "count 10^6"),
+                 "count 10^6, decimal grid counts 1..2000"),
     deadline=dict(quick=150, thorough=3000),
     passes=[dict(name="main"), dict(name="asan", variant="asan", args=["--asan-pass"])],
     assumptions=COMMON_ASSUME + [
-        "principal argument with atan2 conventions; a negative zero is also accepted as a plain zero: angle(0) in {0, atan2(im,re)}, "
-        "negative real axis with im = -0 in {pi, -pi}; z^p = exp(p Log z), 0^p = 0 for p > 0; 0^p for p <= 0, negative real base with "
+        "principal argument with the atan2 conventions for signed zeros, including the sign of a zero or +-pi result: angle(-a,-0) = -pi, "
+        "angle(-a,+0) = +pi, angle(+a,-0) = -0, angle(-0,+0) = pi, angle(-0,-0) = -pi; complex powers use that argument (lower edge of the "
+        "cut: conjugate branch); z^p = exp(p Log z), 0^p = 0 for p > 0; 0^p for p <= 0, negative real base with "
         "fractional exponent in the real overload, log of non-positive numbers and overflowing results (|ref| > 1e300) are not generated",
         "results below 1e-305 are compared absolutely (gradual underflow is not held against the library)",
         "round at exact ties accepts either neighbour; argmin/argmax/min/max accept any position of a tie (no first-occurrence rule), but "
@@ -60,8 +63,8 @@ PROP = dict(
         "stddev uses the n-1 normalisation (n >= 2 only), rms the n normalisation",
         "linspace(x1,x2,1) may be {x2} (MATLAB) or {x1}; its elements are compared at the scale max(|x1|,|x2|)",
         "fractional arange is only exercised with exactly representable (dyadic) steps so that the count (stop-start)/step is integral in "
-        "exact arithmetic, as the quantifier requires; the long non-dyadic aranges use stop = start + count*step rounded to double "
-        "(count integral up to rounding): a library count one off the nominal count is treated as ambiguous and not judged, elements are "
-        "judged only when the count is the nominal one",
+        "exact arithmetic, as the quantifier requires; the long and decimal-grid aranges use stop = start + count*step rounded to double: where "
+        "(stop-start)/step evaluated in long double from the double arguments is within 1e-9 of an integer k the result must have exactly k "
+        "elements and exclude stop; otherwise the rounding is ambiguous and floor or ceil of the quotient is accepted",
     ],
 )
